@@ -7,16 +7,20 @@ list-level rule book (`Spec.RoadPath`, `Spec.outcome`). -/
 namespace Roads
 open Tak Spec
 
-/-- well-formed bit-level board: what `New`, `FromSquares` and `Move` maintain about the bitboards -/
-structure WFBoard (p : Pos) : Prop where
+/-- the part of the board invariant that road detection and the game-end test rely on -/
+structure RoadWF (p : Pos) : Prop where
   size_ok : SizeOK p.cfg.size
   consts : p.c = Gen.precompute p.cfg.size
   white_sub : Sub p.white p.c.Mask
   black_sub : Sub p.black p.c.Mask
   disjoint : p.white &&& p.black = 0#64
+  analyzed : p.analyze = some p
+
+/-- well-formed bit-level board: what `New`, `FromSquares` and `Move` maintain about the bitboards
+(`RoadWF` plus: walls and capstones sit on occupied squares and exclude each other) -/
+structure WFBoard (p : Pos) : Prop extends RoadWF p where
   kinds_sub : Sub (p.standing ||| p.caps) (p.white ||| p.black)
   kinds_disj : p.standing &&& p.caps = 0#64
-  analyzed : p.analyze = some p
 
 theorem and_ne_zero_iff (g m : W) : (g &&& m != 0#64) = true ↔ ∃ a, g.getLsbD a = true ∧ m.getLsbD a = true := by
   constructor
@@ -142,7 +146,7 @@ theorem roadTop_squareAt_black (p : Pos) (hd : p.white &&& p.black = 0#64) (k : 
   cases p.white.getLsbD k <;> cases p.black.getLsbD k <;> cases p.standing.getLsbD k <;>
     cases p.caps.getLsbD k <;> simp [Piece.isRoad]
 
-theorem roadBits_sub (p : Pos) (wf : WFBoard p) (c : Color) : Sub (roadBits p c) (Gen.precompute p.cfg.size).Mask := by
+theorem roadBits_sub (p : Pos) (wf : RoadWF p) (c : Color) : Sub (roadBits p c) (Gen.precompute p.cfg.size).Mask := by
   rw [← wf.consts]
   cases c with
   | white => exact Sub.and_left _ wf.white_sub
@@ -150,7 +154,7 @@ theorem roadBits_sub (p : Pos) (wf : WFBoard p) (c : Color) : Sub (roadBits p c)
   | none => intro i hi; simp [roadBits] at hi
 
 /-- the rule book's "top of square k is a flat or capstone of colour c" is bit k of the bitboard `analyze` floods -/
-theorem roadTop_abs (p : Pos) (wf : WFBoard p) (c : Color) (k : Nat) :
+theorem roadTop_abs (p : Pos) (wf : RoadWF p) (c : Color) (k : Nat) :
     roadTop c ((Spec.abs p).squares.getD k []) = (roadBits p c).getLsbD k := by
   rw [abs_square]
   have h64 := sq_le _ wf.size_ok
@@ -186,7 +190,7 @@ theorem analyze_groups (p : Pos) (h : p.analyze = some p) :
 /-- **Road detection is correct.**  For a well-formed board and either colour: some group recorded by
 `analyze` touches two opposite edges (what `hasRoad` tests) iff the list-level position has a `RoadPath`
 of that colour. -/
-theorem groups_any_iff_roadPath (p : Pos) (wf : WFBoard p) (c : Color) (hc : c ≠ .none) :
+theorem groups_any_iff_roadPath (p : Pos) (wf : RoadWF p) (c : Color) (hc : c ≠ .none) :
     (groupsOf p c).any (isRoadGroup p.c) = true ↔ Spec.RoadPath (Spec.abs p) c := by
   have hg : floodGroups (Gen.precompute p.cfg.size) (roadBits p c) = some (groupsOf p c) := by
     obtain ⟨h1, h2⟩ := analyze_groups p wf.analyzed
@@ -218,7 +222,7 @@ def toOutcome (d : WinDetails) : Spec.Outcome :=
   { over := d.over, winner := d.winner, road := d.reason == .road,
     whiteFlats := d.whiteFlats, blackFlats := d.blackFlats }
 
-theorem hasRoad_bool (p : Pos) (wf : WFBoard p) (c : Color) (hc : c ≠ .none) :
+theorem hasRoad_bool (p : Pos) (wf : RoadWF p) (c : Color) (hc : c ≠ .none) :
     (groupsOf p c).any (isRoadGroup p.c) = Spec.hasRoad (Spec.abs p) c := by
   rw [Bool.eq_iff_iff, groups_any_iff_roadPath p wf c hc, spec_hasRoad_iff]
 
@@ -234,7 +238,7 @@ theorem reserve_ne_zero (a b : U8) (h : a.toNat + b.toNat < 256) :
     have r : (a.toNat + b.toNat == 0) = false := beq_eq_false_iff_ne.mpr h0
     rw [l, r]; rfl
 
-theorem full_board (p : Pos) (wf : WFBoard p) :
+theorem full_board (p : Pos) (wf : RoadWF p) :
     (Spec.abs p).squares.all (fun sq => !sq.isEmpty) = ((p.white ||| p.black) == p.c.Mask) := by
   have h64 := sq_le _ wf.size_ok
   have hmask : ∀ k, p.c.Mask.getLsbD k = decide (k < p.cfg.size * p.cfg.size) := by
@@ -269,7 +273,7 @@ theorem full_board (p : Pos) (wf : WFBoard p) :
 theorem toMove_abs (p : Pos) : (Spec.abs p).toMove = p.toMove := rfl
 
 /-- **End of game, winner, reason and flat counts follow the rule book** on every well-formed board. -/
-theorem winDetails_refines (p : Pos) (wf : WFBoard p) (hr : ReservesOK p) :
+theorem winDetails_refines (p : Pos) (wf : RoadWF p) (hr : ReservesOK p) :
     toOutcome p.winDetails = Spec.outcome (Spec.abs p) := by
   have hW := hasRoad_bool p wf .white (by decide)
   have hB := hasRoad_bool p wf .black (by decide)
@@ -299,7 +303,7 @@ theorem winDetails_refines (p : Pos) (wf : WFBoard p) (hr : ReservesOK p) :
     rcases htm with h | h <;> simp [h, Color.flip]
 
 
-theorem gameOver_refines (p : Pos) (wf : WFBoard p) (hr : ReservesOK p) :
+theorem gameOver_refines (p : Pos) (wf : RoadWF p) (hr : ReservesOK p) :
     p.gameOver = ((Spec.outcome (Spec.abs p)).over, (Spec.outcome (Spec.abs p)).winner) := by
   have h := winDetails_refines p wf hr
   have h1 := congrArg Spec.Outcome.over h
@@ -334,8 +338,8 @@ theorem wfBoardB_iff (p : Pos) : p.wfBoardB = true ↔ WFBoard p ∧ ReservesOK 
   simp only [Bool.and_eq_true, decide_eq_true_eq, beq_iff_eq, subB_iff]
   constructor
   · rintro ⟨⟨⟨⟨⟨⟨⟨⟨⟨h1, h2⟩, h3⟩, h4⟩, h5⟩, h6⟩, h7⟩, h8⟩, h9⟩, h10⟩
-    exact ⟨⟨h1, h2, h3, h4, h5, h6, h7, h8⟩, h9, h10⟩
-  · rintro ⟨⟨h1, h2, h3, h4, h5, h6, h7, h8⟩, h9, h10⟩
+    exact ⟨⟨⟨h1, h2, h3, h4, h5, h8⟩, h6, h7⟩, h9, h10⟩
+  · rintro ⟨⟨⟨h1, h2, h3, h4, h5, h8⟩, h6, h7⟩, h9, h10⟩
     exact ⟨⟨⟨⟨⟨⟨⟨⟨⟨h1, h2⟩, h3⟩, h4⟩, h5⟩, h6⟩, h7⟩, h8⟩, h9⟩, h10⟩
 
 end Roads
